@@ -25,6 +25,11 @@ NVar(j) ==
 NFile(j) == [dims |-> j.dims, vars |-> [i \in 1..Len(j.vars) |-> NVar(j.vars[i])],
              attrs |-> j.attrs, coords |-> j.coords, cls |-> j.cls]
 
+\* which clauses this run enforces (each property's check enforces its own)
+EnfWF == IOEnv.PNC_E_WF = "1"
+EnfISO == IOEnv.PNC_E_ISO = "1"
+EnfVAL == IOEnv.PNC_E_VAL = "1"
+
 VARIABLES tid, l, heap
 tvars == <<tid, l, heap>>
 
@@ -92,7 +97,7 @@ TStep ==
      \* ---- C05: inputs and bystanders unchanged
      /\ ChkT(tr, l + 1, "object table shrank", Len(post) >= Len(heap))
      /\ \A o \in 1..Len(heap) :
-          o # target =>
+          (EnfISO /\ o # target) =>
             ChkS(tr, l + 1, "C05 " \o e.act \o ": object " \o ToString(o) \o " was modified by the call",
                  IF post[o] = heap[o] THEN "" ELSE
                    (IF FileDiff(post[o], heap[o], "full") # "" THEN FileDiff(post[o], heap[o], "full")
@@ -103,13 +108,13 @@ TStep ==
         ELSE IF e.res = "raised"
         THEN /\ ChkT(tr, l + 1, "failed call created an object", Len(post) = Len(heap))
              /\ ChkS(tr, l + 1, "C01 " \o e.act \o ": call with in-domain arguments raised",
-                     IF InDomain(e, heap) THEN e.exc ELSE "")
+                     IF EnfWF /\ InDomain(e, heap) THEN e.exc ELSE "")
         ELSE LET g == post[e.new] IN
              /\ ChkT(tr, l + 1, "new object id", e.new = Len(heap) + 1 /\ Len(post) = e.new)
-             /\ ChkS(tr, l + 1, "C01 " \o e.act \o ": result not well-formed", WFDiag(g))
+             /\ ChkS(tr, l + 1, "C01 " \o e.act \o ": result not well-formed", IF EnfWF THEN WFDiag(g) ELSE "")
              /\ ChkT(tr, l + 1, "C01 " \o e.act \o ": unlimited flag of a surviving dimension changed",
-                     UnlimitedKept(heap[e.src], g))
-             /\ (InDomain(e, heap) =>
+                     EnfWF => UnlimitedKept(heap[e.src], g))
+             /\ ((EnfVAL /\ InDomain(e, heap)) =>
                    ChkS(tr, l + 1, e.prop \o " " \o e.act \o ": result differs from the specified result",
                         ResultDiff(e, heap, g)))
      /\ (l + 1 = Len(tr.steps) => TrAccept(tr))
